@@ -94,6 +94,11 @@ def mtreePathOf (line : Bytes) : Bytes := mtreeUnesc ((line.takeWhile (· != 0x2
 /-- the paths of a .MTREE file read line by line, after the "#mtree" header -/
 def mtreePaths (mtree : Bytes) : List Bytes := (((splitOn nl mtree).drop 1).dropLast).map mtreePathOf
 
+/-- the link target an mtree(5) reader takes from the line of a symbolic link: the last word is `link=` and the quoted
+    target; unquoted it is the member's link target, whatever bytes it has -/
+def mtreeLinkOf (line : Bytes) : Option Bytes :=
+  ((splitOn space line).getLast?).map (fun w => mtreeUnesc (w.drop 5))
+
 /-- archlinux .MTREE: header, .PKGINFO first, then one line per payload member in archive order -/
 def expMtree (payload : List SMember) (pkginfo : SMember) : Bytes :=
   b!"#mtree\n" ++ mtreeLine pkginfo ++ payload.flatMap mtreeLine
@@ -102,6 +107,9 @@ def checkArch (payload : List SMember) (pkginfo : SMember) (mtree : Bytes) (size
   (if mtree = expMtree payload pkginfo then [] else ["mtree-differs"])
   -- independent of the rendering: what a line-oriented mtree(5) reader finds must be the shipped members, by name
   ++ (if mtreePaths mtree = pkginfo.name :: payload.map (·.name) then [] else ["mtree-paths-do-not-read-back"])
+  -- … and the link target on the line of every symbolic link is that member's target
+  ++ (if ((((splitOn nl mtree).drop 1).dropLast).zip (pkginfo :: payload)).all
+          (fun (line, m) => m.kind != tSym || mtreeLinkOf line == some m.link) then [] else ["mtree-link-does-not-read-back"])
   ++ (if size = some (natToDec (payloadBytes payload)) then [] else ["size-differs"])
   ++ sizesConsistent (pkginfo :: payload)
 
